@@ -304,9 +304,11 @@ pub fn gen_cases(seed: u64, n: usize, max_len: i32, max_depth: usize, start_id: 
         if plan.is_empty() {
             continue;
         }
-        let pre = match rng.gen_range(0..6) {
+        let pre = match rng.gen_range(0..7) {
             0 => "del_imp",
             1 => "add_imp",
+            // a module WITHOUT local functions whose function under test is built and replaces an import
+            2 if !body.iter().any(|i| i["o"] == "br_table") => "via_replace",
             _ => "",
         };
         // op7 must be unused when it is deleted
